@@ -271,6 +271,27 @@ def _eval_jac(case):
         ratio = max(ratio, d / bound)
         if not d <= bound:
             msgs.append("%s over %r: numerical Jacobian of vertex %d differs from the 5-point derivative by %.3g (> %.3g, forward-difference accuracy)" % (name, kinds, vi, d, bound))
+    # the derivative does not know about fixed flags
+    if not msgs:
+        for v in verts:
+            v.fixed = True
+        with np.errstate(all="ignore"):
+            jf = I.BaseEdge.calc_jacobians(e)
+        for v in verts:
+            v.fixed = False
+        ops += 1
+        if len(jf) != len(jacs) or any(np.asarray(a).shape != np.asarray(b).shape or not np.allclose(np.asarray(a, dtype=float), np.asarray(b, dtype=float), rtol=0, atol=1e-12 * absmax) for a, b in zip(jf, jacs)):
+            msgs.append("%s over %r: numerical Jacobians change when the vertices are marked fixed" % (name, kinds))
+    # object reuse: the measurement IS the first vertex's pose object (prior / relative pose anchored at the current estimate)
+    if not msgs and name in ("prior",) and not case.get("far"):
+        e2 = cls([verts[0].id], np.eye(1), verts[0].pose, [verts[0]])
+        with np.errstate(all="ignore"):
+            j2 = I.BaseEdge.calc_jacobians(e2)
+        _, Jn2 = D.edge_fd_jacobian(cls([verts[0].id], np.eye(1), I.mk_pose(kinds[0], I.comps(verts[0].pose)), [verts[0]]), 0, angle_idx, rot)
+        d2 = float(np.max(np.abs(np.asarray(j2[0], dtype=float) - Jn2)))
+        ops += 1
+        if not d2 <= 1e-5 * tsc + 1e-8 * absmax:
+            msgs.append("prior whose measurement object IS the vertex's pose object: numerical Jacobian differs from the derivative by %.3g (aliasing)" % d2)
     # history: the vertex moves (as during optimisation), the Jacobians are requested again
     if not msgs and not case.get("far"):
         v0 = verts[0]
